@@ -143,6 +143,8 @@ func c03Exec1(op []string) string {
 			return "bad-op"
 		}
 		return c03Session(envTok(op[1]), op[2:])
+	case "c03.mix":
+		return c03Mix(op)
 	case "c03.par":
 		if len(op) != 5 {
 			return "bad-op"
@@ -617,6 +619,8 @@ func c03Judge(op []string, out string) string {
 					i+1, len(outs), c03History(op[2:], i), clip(outs[i]), clip(want))
 			}
 		}
+	case "c03.mix":
+		return c03MixJudge(op, out)
 	case "c03.par":
 		if !strings.HasPrefix(out, "par ok ") {
 			return "clients of one process working at the same time disturb one another: " + clip(out)
@@ -925,6 +929,9 @@ func c03Gen(g *G) {
 		b := c03SpecUnenc(c03ServerMid(g), r.Bytes(r.Intn(64)))
 		g.Emit("c03.udeser "+hexD(b), "unenc-deserialize")
 	}
+	// (e) what a REFUSED operation leaves behind for the next accepted one: sequences of one process mixing refused
+	// and accepted operations of several clients, both sides of the envelope (c03mix.go)
+	c03GenMix(g)
 }
 
 func c03EncStep(g *G, mid uint64) string {
